@@ -41,15 +41,20 @@ def cap(acc, repeats, seed=None):
 
 def _judge_one(rec):
     """Runs the real function on one graph and compares with the facts TLC derived. Returns (violations, info)."""
-    acc = impl.accessor(rec["live"])
+    if rec["live"] == "uniform":
+        k, P = rec["uniform"]
+        live = [P] * (4 ** k)
+    else:
+        live = rec["live"]
+    acc = impl.accessor(live)
     keep = acc.copy()
     bad = []
     det = cap(acc, 1)
     rnd = {}
-    seeds = [1, 2]
-    for rep in (2, 3, 5):
+    seeds = [1, 2] if len(live) <= 1024 else [1]
+    for rep in ((2, 3, 5) if len(live) <= 1024 else (2,)):
         for s in seeds:
-            rnd[(rep, s)] = cap(acc, rep, seed=1000 * rep + s + len(rec["live"]))
+            rnd[(rep, s)] = cap(acc, rep, seed=1000 * rep + s + len(live))
     vals = [("deterministic", det)] + [("random-start repeats=%d seed=%d" % k, v) for k, v in rnd.items()]
     for name, v in vals:
         if not isinstance(v, float):
@@ -79,8 +84,19 @@ def _judge_one(rec):
     return bad, width
 
 
-def propose(rng, n):
+def near_complete(rng, k, drop):
+    live = [[0, 1, 2, 3] for _ in range(4 ** k)]
+    for _ in range(drop):
+        v = rng.randrange(4 ** k)
+        if len(live[v]) > 1:
+            live[v].remove(rng.choice(live[v]))
+    return live
+
+
+def propose(rng, n, n4):
     graphs = []
+    for i in range(n4):            # order 4: near-complete graphs and generated graphs (the certificate costs ~15 s each in TLC)
+        graphs.append(near_complete(rng, 4, rng.choice([1, 2, 5])) if i % 2 == 0 else (cf.generated_live(rng, 4, t=2) or near_complete(rng, 4, 3)))
     for i in range(n):
         k = 2 if i % 4 else 3
         if i % 3 == 0:
@@ -102,27 +118,38 @@ def run(ctx):
     if len(recs) != (4096 if ctx.quick else 65536):
         raise Machinery("unexpected number of order-1 records: %d" % len(recs))
     rng = random.Random(ctx.seed * 179424673 % (2 ** 31) + 17)
-    graphs = propose(rng, 40 if ctx.quick else 300)
+    graphs = propose(rng, 40 if ctx.quick else 300, 3 if ctx.quick else 16)
     path = os.path.join(ctx.workdir, "c17_graphs.json")
     with open(path, "w") as f:
         json.dump({"graphs": graphs}, f)
     r2 = ctx.tlc("MC_Capacity", "MC_Capacity_file.cfg", env={"TRACE_FILE": path}, workers=16, timeout=3400, heap="12g")
     if len(r2.records) != len(graphs):
         raise Machinery("expected %d certificates, got %d" % (len(graphs), len(r2.records)))
-    allrecs = recs + r2.records
+    r3 = ctx.tlc("MC_Capacity", "MC_Capacity_uniform.cfg", workers=16, timeout=1800, heap="12g")
+    if len(r3.records) != 75:
+        raise Machinery("expected 75 uniform-pattern records, got %d" % len(r3.records))
+    # the uniform-pattern family is |P|-regular at every order (UniformIsRegular, TLC-checked for orders 1..5); the real function is
+    # held to exactly log2 |P| and to <= 2 bits up to order 8 (65 536 vertices)
+    big = []
+    for k in (6, 7, 8):
+        for P in ([0, 1, 2, 3], [0, 2, 3], [1, 3], [2]):
+            big.append({"gid": 100 * k, "live": "uniform", "uniform": [k, P], "res": "not-classified", "reg": len(P), "m": 0, "csize": 0,
+                        "lo": [0, 1], "hi": [4, 1], "prem": [0, 0, 0], "nest": 0, "last": [len(P), 1], "arcless": False})
+    quick_big = [b for b in big if b["uniform"] in ([8, [0, 1, 2, 3]], [8, [0, 2, 3]], [7, [1, 3]], [6, [0, 1, 2, 3]])]
+    allrecs = recs + r2.records + r3.records + (big if not ctx.quick else quick_big)
     ctx.exhaustive = True
     res = impl.pmap(_judge_one, allrecs, chunk=64)
     widths, cert = [], 0
     for rec, (bad, width) in zip(allrecs, res):
         ctx.judged()
-        if sum(len(x) for x in rec["live"]) >= 2:
-            ctx.mark(json.dumps(rec["live"]))
+        if rec["live"] == "uniform" or sum(len(x) for x in rec["live"]) >= 2:
+            ctx.mark(json.dumps(rec.get("uniform") or rec["live"]))
         if rec["res"] == "certified":
             cert += 1
             if width is not None:
                 widths.append(width)
         for clause, exp, obs, feats in bad:
-            ctx.violation(clause, {"live": rec["live"] if len(rec["live"]) <= 16 else "order 3 (seeded)", "class": rec["res"], "regular": rec["reg"],
+            ctx.violation(clause, {"live": rec.get("uniform") or (rec["live"] if len(rec["live"]) <= 16 else "order %d (seeded)" % (len(bin(len(rec["live"]))) // 2 - 1)), "class": rec["res"], "regular": rec["reg"],
                                    "lo": rec["lo"], "hi": rec["hi"]}, exp, impl.jsonable(obs), features=feats)
     widths.sort()
     ctx.notes["certified_graphs"] = cert
@@ -131,9 +158,9 @@ def run(ctx):
     ctx.sample({"flow": "A", "record": [x for x in r2.records if x["res"] == "certified"][0] if any(x["res"] == "certified" for x in r2.records) else r2.records[0]})
     ctx.sample({"flow": "A", "record": [x for x in recs if x["res"] == "certified" and x["csize"] >= 3][5]})
     ctx.assumptions += ["accuracy is decided only against the certified Collatz-Wielandt interval after 13 exact steps (sound at any width, "
-                        "sharp when the interval is tight); graphs of order >= 4 are out of reach of the 32-bit integer model",
+                        "sharp when the interval is tight); graphs of order >= 5 are out of reach of the 32-bit integer model (order 4 is covered by a few graphs per run)",
                         "the spectral-gap premise is established by a sufficient Birkhoff-contraction certificate; graphs it cannot certify are not judged for accuracy"]
-    return {"scope": {"order1_graphs": len(recs), "proposed_graphs": len(graphs)}}
+    return {"scope": {"order1_graphs": len(recs), "proposed_graphs": len(graphs), "order4_graphs": 3 if ctx.quick else 16, "uniform_family": "orders 1..8"}}
 
 
 def replay(ctx, v):
